@@ -1,4 +1,4 @@
-import Secp.Proofs.AddSub
+import Secp.Proofs.LimbLawful
 /-!
 # C12 — the base-field layer computes exact, canonical arithmetic in F_p
 (first instalment: the limb-level contracts of the generated Fiat functions)
@@ -22,5 +22,18 @@ theorem sub_correct (x y : L4) (hx : x.ok) (hy : y.ok) (hX : x.eval < Pnat) (hY 
 
 theorem neg_correct (x : L4) (hx : x.ok) (hX : x.eval < Pnat) :
     (FiatField.opp x).ok ∧ (FiatField.opp x).eval = (Pnat - x.eval) % Pnat := fieldOpp_correct x hx hX
+
+/-- zero / equality tests and conditional move on a 0/1 condition (bit tricks proved on `Nat` words below 2^64) -/
+theorem equals_correct (e u : L4) (he : e.ok) (hu : u.ok) : FiatField.equals e u = if e = u then 1 else 0 :=
+  equals_spec e u he hu
+theorem isZero_correct (e : L4) (he : e.ok) :
+    FiatField.isZero (FiatField.nonzero e) = if e = ⟨0, 0, 0, 0⟩ then 1 else 0 := isZeroL4_spec e he
+theorem cmove_correct (c : Nat) (hc : c ≤ 1) (u v : L4) (hu : u.ok) (hv : v.ok) :
+    FiatField.selectznz c u v = if c = 0 then u else v := selectznz_spec_p c hc u v hu hv
+
+/-- the limb implementation (`field.Element` methods on Montgomery limbs) is a lawful implementation of `ZMod p`:
+canonical representations are unique, and add/sub/mul/square/neg/zero-test/equality/cmove commute with the
+abstraction `limbs ↦ eval · R⁻¹ (mod p)` and preserve canonicity -/
+noncomputable def lawful : Lawful Hand.limbOps (ZMod Spec.P) := limbLawful
 
 end C12
